@@ -127,7 +127,7 @@ sx_make_symboln(const char *s, size_t len)
     if (node->data.symbol == NULL) {
         sxoom(__FILE__, __LINE__);
     }
-    strlcpy(node->data.symbol, s, n);
+    memcpy(node->data.symbol, s, len);
     return node;
 }
 
